@@ -42,20 +42,20 @@ def apply {α : Type} (v : IxView2) (a b : Arr α) (dflt : α) : Arr α :=
 end IxView2
 
 /-- loop of `shape_concatenate` (ranks already equal): returns (`success`, entries written so far ++ zeros) -/
-def shapeConcatLoop (axisU : Nat) : Nat → Shape → Shape → Bool × Shape
+def shapeConcatLoop (axis : Int) : Nat → Shape → Shape → Bool × Shape
   | _, [], _ => (true, [])
   | _, _ :: _, [] => (true, [])
   | i, a :: as, b :: bs =>
-      if i = axisU then
-        let (ok, r) := shapeConcatLoop axisU (i + 1) as bs
+      if (i : Int) = axis then
+        let (ok, r) := shapeConcatLoop axis (i + 1) as bs
         (ok, (a + b) :: r)
       else if a = b then
-        let (ok, r) := shapeConcatLoop axisU (i + 1) as bs
+        let (ok, r) := shapeConcatLoop axis (i + 1) as bs
         (ok, a :: r)
       else (false, List.replicate (as.length + 1) 0)
 
 def shapeConcatenate (a b : Shape) (axis : Int) : Bool × Shape :=
-  if a.length = b.length then shapeConcatLoop (u64 axis) 0 a b
+  if a.length = b.length then shapeConcatLoop axis 0 a b
   else (false, List.replicate a.length 0)
 
 def shapeConcatenateNone (a b : Shape) : Shape := [prod a + prod b]
@@ -68,15 +68,11 @@ def indexConcatenateNone (a b : Shape) (d : Idx) : Option (Bool × Idx) :=
       else none
   | [] => none
 
-def subAtAux (axisU aa : Nat) : Nat → Idx → Idx
-  | _, [] => []
-  | i, x :: xs => (if i = axisU then x - aa else x) :: subAtAux axisU aa (i + 1) xs
-
 def indexConcatenate (a b : Shape) (d : Idx) (axis : Int) : Option (Bool × Idx) :=
   match atPy a axis, atPy b axis, atPy d axis with
   | some aa, some ba, some ia =>
       if ia < aa then some (false, d.take a.length)
-      else if ia < ba + aa then some (true, subAtAux (u64 axis) aa 0 (d.take b.length))
+      else if ia < ba + aa then some (true, mapAt (· - aa) axis 0 (d.take b.length))
       else none
   | _, _, _ => none
 
